@@ -113,6 +113,8 @@ def promote(*dts):
 class NA(object):
     """Abstract ndarray: object array of symbolic entries + nominal dtype."""
 
+    is_array_value = True
+
     isinstance_names = ('ndarray',)
 
     def __init__(self, a, dt=None):
@@ -662,6 +664,20 @@ class NAHooks(Hooks):
                 else:
                     res = H.elementwise(
                         I, lambda x, y: H.maxmin(I, name, x, y), a, b)
+                where = k.get('where', True)
+                if where is not True and isinstance(res, NA):
+                    # entries not selected keep the previous contents of
+                    # `out` (uninitialised without `out`); a mask computed
+                    # from symbolic data may be False anywhere
+                    m = na_of(where)
+                    sel = _np.broadcast_to(m.a, res.a.shape)
+                    old = out.a if isinstance(out, NA) else None
+                    for idx in _np.ndindex(*res.a.shape):
+                        if getattr(where, 'generic', False) or not bool(
+                                sel[idx]):
+                            res.a[idx] = old[idx] if old is not None and \
+                                old.shape == res.a.shape else Rat.var(
+                                    'uninit_%s' % '_'.join(map(str, idx)))
                 if out is not None:
                     H.store(I, out, Ellipsis, res)
                     return out
@@ -1008,9 +1024,17 @@ class NAMixin(object):
         if (isinstance(l, NA) or isinstance(r, NA)) and isinstance(
                 op, (ast.Lt, ast.LtE, ast.Gt, ast.GtE, ast.Eq, ast.NotEq)):
             base = super(NAMixin, self).cmp1
-            f = lambda x, y: bool(self.truth_value(base(op, x, y, node),
-                                                   node))
-            return self.hooks.elementwise(self, f, l, r, dt=DT(bool))
+            generic = []
+
+            def f(x, y):
+                c = base(op, x, y, node)
+                if not isinstance(c, bool):
+                    generic.append(1)      # decided for generic values only
+                return bool(self.truth_value(c, node))
+            res = self.hooks.elementwise(self, f, l, r, dt=DT(bool))
+            if generic and isinstance(res, NA):
+                res.generic = True
+            return res
         return super(NAMixin, self).cmp1(op, l, r, node)
 
     def truth_value(self, v, node=None):
